@@ -115,7 +115,28 @@ def _d2(chk, fb):
                     ri = (f.nodes.get(lp["rangeinit"]) if isinstance(lp.get("rangeinit"), int) else lp.get("rangeinit")) if lp else None
                     if ri is not None and render(ri).replace("this.", "") == "m_":
                         inn.append(render(f.args(c)[0]))
-            if o == [pn[k]] and inn and all(x == pn[1 - k] for x in inn):
+            # every normal path sizes the inner level: the loop that does it is on every path from entry to exit
+            inner_calls = [c for c in rs if render(f.obj(c)).startswith("m_[") or strip(f.obj(c))["k"] == "DeclRefExpr"]
+            heads = set()
+            for c in inner_calls:
+                lp = f.enclosing(c, ("ForStmt", "CXXForRangeStmt", "WhileStmt"))
+                if lp is not None:
+                    hb = f.cfg.stmt_block(f.nodes[lp["cond"]]) if lp.get("cond") is not None else None
+                    if hb is None:
+                        hb = next((b for b, blk in f.cfg.blocks.items() if blk.get("term") == lp["id"]), None)
+                    if hb is not None:
+                        heads.add(hb)
+            skipped = None
+            if heads:
+                okp, path = e1.must_pass(f.cfg, heads)
+                if not okp:
+                    skipped = path
+            if o == [pn[k]] and inn and all(x == pn[1 - k] for x in inn) and skipped is not None:
+                rets = [n for n in walk(f.body) if n["k"] == "ReturnStmt"]
+                chk.refuted("D2", f.key, "layout-resize", f.loc(rets[0]) if rets else f.loc(),
+                            "%s::resize can return after sizing the outer level without sizing the inner vectors: newly added %s stay empty while the matrix reports the new shape" % (
+                                cls.split("::")[-1], "columns" if k == 1 else "rows"), witness={"shape": "1x1 resized to 1x2", "blocks": skipped})
+            elif o == [pn[k]] and inn and all(x == pn[1 - k] for x in inn):
                 chk.proved("D2", f.key, "layout-resize", f.loc(), "outer level sized by %s, inner by %s" % (pn[k], pn[1 - k]))
             elif not o or not inn or any(x not in pn for x in o + inn):
                 chk.unknown("D2", f.key, "layout-resize", f.loc(), "resize not in a recognised form (outer %s, inner %s)" % (o, inn))
@@ -402,6 +423,91 @@ def _d5(chk, fb):
     chk.floor("D5", "vector operands read by several statements of one accumulation", n_groups, 3)
 
 
+def _d6(chk, fb):
+    """E7: a shortcut 'if (scalar parameters equal literals) return;' in front of an element-wise update is sound only if the
+    update is the identity under those equalities (scale(A, a, b): A(i,j) = a*A(i,j) + b is the identity for a == 1 and b == 0,
+    not for a == 1 alone)"""
+    import sympy as sp
+    n = 0
+    for f in sorted(_kernels(fb), key=lambda x: x.key):
+        pnames = {p_["name"] for p_ in f.params if "&" not in p_.get("ty", "") or p_["ty"].startswith("const ")}
+        for ifn in [x for x in kids(f.body) if x["k"] == "IfStmt"]:
+            then = strip(f.nodes[ifn["then"]])
+            if then["k"] == "CompoundStmt" and len(kids(then)) == 1:
+                then = strip(kids(then)[0])
+            if then["k"] != "ReturnStmt" or kids(then) or ifn.get("else") is not None:
+                continue
+
+            def scenarios(c):
+                c = strip(c)
+                if c["k"] == "BinaryOperator" and c["op"] == "&&":
+                    a_, b_ = scenarios(kids(c)[0]), scenarios(kids(c)[1])
+                    return None if a_ is None or b_ is None else [dict(x, **y) for x in a_ for y in b_]
+                if c["k"] == "BinaryOperator" and c["op"] == "||":
+                    a_, b_ = scenarios(kids(c)[0]), scenarios(kids(c)[1])
+                    return None if a_ is None or b_ is None else a_ + b_
+                if c["k"] == "BinaryOperator" and c["op"] == "==":
+                    l_, r_ = strip(kids(c)[0]), strip(kids(c)[1])
+                    for x, y in ((l_, r_), (r_, l_)):
+                        if x["k"] == "DeclRefExpr" and x["decl"]["kind"] == "param" and x["decl"]["name"] in pnames and y["k"] in ("IntegerLiteral", "FloatingLiteral"):
+                            return [{x["decl"]["name"]: sp.nsimplify(y["val"], rational=True)}]
+                return None
+            sc = scenarios(f.nodes[ifn["cond"]])
+            if not sc:
+                continue        # a shortcut on sizes / emptiness: not this rule
+            # element-wise updates that follow the shortcut
+            ups = []
+            for x in walk(f.body):
+                if x["k"] in ("BinaryOperator", "CompoundAssignOperator") and x.get("op") in ("=", "+=", "-=", "*=", "/=") and not f.contains(ifn, x):
+                    l_ = strip(kids(x)[0])
+                    if is_call(l_) and l_["callee"]["name"] in ("operator()", "operator[]") and f.enclosing(x, ("ForStmt", "WhileStmt", "CXXForRangeStmt")) is not None:
+                        ups.append((x, l_))
+            if not ups:
+                continue
+            n += 1
+            con = "shortcut:" + render(f.nodes[ifn["cond"]])[:50]
+            opaque = {}
+
+            def sx(e, env, elem):
+                e = strip(e)
+                t = render(e)
+                if t == elem:
+                    return sp.Symbol("ELEM")
+                k_ = e["k"]
+                if k_ == "IntegerLiteral":
+                    return sp.Integer(int(e["val"]))
+                if k_ == "FloatingLiteral":
+                    return sp.nsimplify(e["val"], rational=True)
+                if k_ == "DeclRefExpr" and e["decl"]["name"] in env:
+                    return env[e["decl"]["name"]]
+                if k_ == "UnaryOperator" and e["op"] in ("-", "+"):
+                    v = sx(kids(e)[0], env, elem)
+                    return -v if e["op"] == "-" else v
+                if k_ == "BinaryOperator" and e["op"] in ("+", "-", "*", "/"):
+                    a_, b_ = sx(kids(e)[0], env, elem), sx(kids(e)[1], env, elem)
+                    return {"+": a_ + b_, "-": a_ - b_, "*": a_ * b_, "/": a_ / b_}[e["op"]]
+                return opaque.setdefault(t, sp.Symbol(t if t.isidentifier() else "o%d" % len(opaque)))
+            bad = None
+            for env in sc:
+                for x, l_ in ups:
+                    rhs = sx(kids(x)[1], env, render(l_))
+                    ident = {"=": sp.Symbol("ELEM"), "+=": 0, "-=": 0, "*=": 1, "/=": 1}[x["op"]]
+                    if sp.simplify(rhs - ident) != 0:
+                        bad = (env, x, rhs)
+                        break
+                if bad:
+                    break
+            if bad:
+                env, x, rhs = bad
+                chk.refuted("D6", f.key, con, f.loc(ifn),
+                            "%s returns early when %s, but under that condition '%s' is not the identity (it becomes %s): the shortcut drops the rest of the update" % (
+                                f.name, " and ".join("%s == %s" % kv for kv in sorted(env.items())), render(x)[:70], str(rhs).replace("ELEM", render(strip(kids(x)[0])))[:60]),
+                            witness={"input": "%s with the remaining scalar argument(s) non-neutral" % ", ".join("%s = %s" % kv for kv in sorted(env.items()))})
+            else:
+                chk.proved("D6", f.key, con, f.loc(ifn), "under the shortcut's condition every element update is the identity")
+    chk.floor("D6", "scalar shortcuts in front of element-wise updates", n, 1)
+
+
 def run(chk, fb, tier):
     chk.rule("D1", "E2 SymBounds on every MatrixTools kernel: index bounds vs dimensions from resize/guards; witness shape required to refute")
     chk.rule("D2", "const/non-const operator() of each storage class return the same element; LinearMatrix::resize_ assigns rows_ and cols_ on every path; flat layout i*cols_+j")
@@ -413,5 +519,7 @@ def run(chk, fb, tier):
     _d3(chk, fb)
     _d4(chk, fb)
     _d5(chk, fb)
+    chk.rule("D6", "E7: an early return guarded by equalities on scalar parameters is taken only when the element-wise update that follows is the identity under those equalities")
+    _d6(chk, fb)
     chk.note("skipped in D1 (data-dependent indices): %s" % KNOWN_SKIPS)
     chk.assume("kernels are analysed for RowMatrix<double>; the Matrix interface is the same for the other storage classes (D2 checks their accessors)")
